@@ -37,7 +37,7 @@ CLAIMS = {
              "word); the pairing of a key with the following word or the glued rest of its word is decided by an exhaustive "
              "table over value mode x what follows (Engine B, shared with C02-R12); the tokeniser's decision when the rest of "
              "a word is a value is evaluated for every combination of its inputs (after '--key=' always, a requested "
-             "value only inside a word - whatever character the rest starts with, so that a glued negative value is a value, and whether or not '--' was seen); a stored value is also reported as given (hasValue). The full equivalence of all command-line spellings (tokenisation by the "
+             "value only inside a word; a word is a control element only if it IS one of '(' ')' '!' (table over word length x first character) - whatever character the rest starts with, so that a glued negative value is a value, and whether or not '--' was seen); a stored value is also reported as given (hasValue). The full equivalence of all command-line spellings (tokenisation by the "
              "ArgListIterator state machine) is a relation over an exponential input space and is NOT decided.",
         note="trusts clang AST/CFG, boost::lexical_cast; spelling equivalence not covered",
         technique="static analysis: who-may-write effect facts, def-use of stores, who-may-call"),
@@ -53,7 +53,7 @@ CLAIMS = {
              "pairing of a key with its value is evaluated abstractly for every value mode x {nothing, value, key} "
              "following (required without value throws, optional never takes a glued rest, 'command' ends the "
              "evaluation). "
-             "Path rules quantify over all command lines because they quantify over all paths.",
+             "Requires/excludes entries carry the kind they were defined with (ConstraintRequires / ConstraintExcludes pass the kind they are named after); a handler constraint is registered only after validated(). Path rules quantify over all command lines because they quantify over all paths.",
         note="trusts clang AST/CFG and the extractor; exceptions are the only failure channel; value conversion "
              "itself (boost::lexical_cast) and regex/file-system check semantics are not decided",
         technique="static analysis: CFG must-pass-through / dominance / sibling agreement over resolved calls"),
@@ -67,7 +67,7 @@ CLAIMS = {
              "on that information (the parameter in assignValue, a member set from it in the list loops of the "
              "multi-value destinations), canonical key for constraint matching, every successful assign() makes hasValue() "
              "true (mandatory check), value constraints relate only values that "
-             "were given (compareValue() reachable only through hasValue()-true edges of both arguments); the complete key of a sub-group argument is not pre-empted by a normal argument it abbreviates (lookup table over both key containers, shared with C05-R5). The general statement is not "
+             "were given (compareValue() reachable only through hasValue()-true edges of both arguments); the complete key of a sub-group argument is not pre-empted by a normal argument it abbreviates (lookup table over both key containers, shared with C05-R5); the repeatable built-in arguments (end-of-values marker, listing arguments) are defined without upper cardinality. The general statement is not "
              "decidable statically and is not claimed.",
         note="trusts clang AST/CFG; boost::lexical_cast converts every representable value; interaction of arbitrary "
              "checks/formats/constraints is not decided", also=("engine B (boolshape.py)",),
@@ -90,7 +90,7 @@ CLAIMS = {
              "outside the program: a loop driven by a stream read must end at the first failed read (end of file or "
              "error), and for the element loop over an argument vector: every step of the argument iterator is proved to move "
              "the cursor forward (word index, then character position; the nested step on a lone '--' by induction). "
-             "Termination of the remaining loops is NOT decided. Downcast provenance: every pointer that a Handler member static_casts to the sub-group argument class comes, on every reaching definition, out of the container that only receives sub-group objects (or is null).",
+             "Termination of the remaining loops is NOT decided. Downcast provenance: every pointer that a Handler member static_casts to the sub-group argument class comes, on every reaching definition, out of the container that only receives sub-group objects (or is null); container.erase( it) with the iterator of a search only over an edge on which it != end() is known.",
         note="trusted base: clang front end, extractor, cv/lin.py + cv/bounds.py and its models of "
              "strlen/strcpy/new[]/std::vector/std::string; argc >= 1, argv words are C strings shorter than 2 GiB, "
              "argv[argc] is null",
@@ -111,7 +111,7 @@ CLAIMS = {
              "EVERY combination of what the two containers hold for the key (nothing / the exact key / one / several "
              "abbreviation matches) against the contract of the container lookups: an exact key always selects its "
              "own argument, one abbreviation match in total selects it, none is unknown, more than one throws. Key parsing: the string constructor of ArgumentKey removes exactly the "
-             "leading dashes (at most two) for every specification text (Engine C with symbolic characters); in the two-part form the short key is the character of the part that the guarding condition knows to be one character long and the long key is the other part.",
+             "leading dashes (at most two) for every specification text (Engine C with symbolic characters); in the two-part form the short key is the character of the part that the guarding condition knows to be one character long and the long key is the other part; every comparison of the add-time check and of the lookups relates the stored entry with the given key (no self-comparison, prefix test in the right direction) and the lookups hand out the examined entry.",
         note="trusts clang AST/CFG and the documented meaning of std::string::compare/find/rfind/substr; the comma "
              "form of key specifications is not decided",
         also=("engine B (boolshape.py)", "engine C (lin.py, bounds.py)"),
@@ -122,7 +122,7 @@ CLAIMS = {
              "C array, std::array, tuple, bitset, vector<bool>, DynamicBitset): the order clear (once, flag reset) -> "
              "(check -> format -> convert -> duplicate test -> add)* -> sort (after the loop, if requested) is decided by "
              "reachability inside one iteration of the loop CFG; the trait constants of every ContainerAdapter "
-             "specialisation are compared with the shape of its sort()/contains()/addValue()/clear(); the four key-value adapters insert the pair ( key, value) and touch the destination in no other way (earlier content stays, siblings agree); capacity and growth "
+             "specialisation are compared with the shape of its sort()/contains()/addValue()/clear(); the four key-value adapters insert the pair ( key, value) and touch the destination in no other way (earlier content stays, siblings agree); membership tests compare with the end marker and search the given value; the sort of a fixed-size destination covers exactly [0, fill counter); capacity and growth "
              "of fixed-size destinations by Engine C; duplicate test over the filled prefix; routing of free values by "
              "guards. Equality of the final container with the fold over all cuts is not decided.",
         note="trusts clang AST/CFG; standard containers and boost::tokenizer behave as documented",
@@ -174,7 +174,7 @@ CLAIMS = {
              "touch no written, mutable object with static storage duration unless a lock on a static mutex is held; "
              "no non-reentrant libc call; per-handler constraint container; no function-local static on those paths is "
              "initialised from a parameter, a local or the object (a process-wide memo of the first caller's data "
-             "is not a race but breaks 'as if alone'); every call from a Handler member into the process-wide group registry is guarded by the membership flag (three frozen, reasoned exceptions). Holds for every schedule because it is a "
+             "is not a race but breaks 'as if alone'); every call from a Handler member into the process-wide group registry is guarded by the membership flag (three frozen, reasoned exceptions); no function that sets process-wide state (locale, environment, working directory, handlers) on handler paths. Holds for every schedule because it is a "
              "statement about all paths of all reachable functions; it does not execute interleavings.",
         note="trusts clang AST/CFG, the extractor, thread-safety of boost/libstdc++ internals; std::function targets "
              "supplied by users are outside the claim",
@@ -216,7 +216,7 @@ CLAIMS = {
              "possible digit count, the numeric value kept symbolic as a digit stream, yielding the exact cell "
              "layout, NUL index, returned length and absence of stray writes (P2), negation in the same-width "
              "unsigned type and dispatcher selection by sign and sizeof (P3). 542 obligations, all discharged; "
-             "covers all 2^64 64-bit values, which no enumeration reaches.",
+             "covers all 2^64 64-bit values, which no enumeration reaches. A division by 10 written as reciprocal multiplication and shift is decided exactly per digit-count class (exact for the class or refuted with a counter example).",
         text_extra=" The inverse conversion stringTo<T>() is decided by a table rule: every integral specialisation parses with a std::sto* function whose result range covers T.",
         note="trusted base: clang front end, the extractor and the symbolic interpreter cv/digits.py; -INT_MIN "
              "wrap-around as produced by the repository's compilers; the text-to-value direction (std::strto*) "
@@ -230,7 +230,7 @@ CLAIMS = {
              "shapes of Filters::pass (conjunction), Logging::log, Log::message, ILogDest::handleMessage "
              "(exactly-once delivery under the filters), completeness/distinctness of the class and level name "
              "tables, single-writer and no-reset rules for the duplicate policy; the class-list filter sets exactly the bit "
-             "of every class it names and pass() returns exactly the bit of the message's class.",
+             "of every class it names and pass() returns exactly the bit of the message's class; a level filter whose verdict does not depend on the message level / the configured level is a violation; the macro pre-check (discard_by_level) asks Filters::processLevel of the log or a sound refinement (no discard from inside the loop over the destinations).",
         note="trusts clang AST/CFG; the full (level x class x filter-history) table as executed is not decided",
         also=("engine B (boolshape.py)", "engine E (effects.py)"),
         technique="static analysis: enum-capacity facts, truth tables over orderings, CFG loop-shape rules"),
@@ -243,7 +243,7 @@ CLAIMS = {
              "check -> write -> account and close -> roll -> open orderings by dominance; after every rollFiles() call "
              "openCheck() sees the new file before the function returns; roll loops shift "
              "generation n-1 to n with n descending; files::Handler<P, L>::message() holds a named lock guard on its lock "
-             "member around writeMessage(). Breaking any of these breaks the property for some history; "
+             "member around writeMessage(); filename::Builder renders the generation number completely and unmodified (every generation has its own name). Breaking any of these breaks the property for some history; "
              "histories, restarts and crash points themselves are not decided.",
         note="trusts clang AST/CFG and constant folding; libstdc++ openmode bit values; std::endl writes one byte",
         also=("engine B (boolshape.py)",),
@@ -257,7 +257,7 @@ CLAIMS = {
              "attribute lookup order by dominance and guard (message attributes through the parent chain of the attribute "
              "object, own value before the parent's, before global ones), newest-first search, Logging's global add/remove "
              "forward all parameters to the container, add/remove pairing of scoped "
-             "attributes, use of the strftime() result; the LogMsg getters the renderer reads return one stored member each, unchanged (and the member their setter writes), the three time getters are computed from the one stored time point by truncating conversions only (a rounding conversion makes seconds and sub-second fields describe different instants).",
+             "attributes, use of the strftime() result; the LogMsg getters the renderer reads return one stored member each, unchanged (and the member their setter writes), the three time getters are computed from the one stored time point by truncating conversions only (a rounding conversion makes seconds and sub-second fields describe different instants); no function-local static in the log units memoises data of the first message; width, alignment and format string travel from the builder to the field definition without implicit narrowing.",
         note="trusts clang AST/CFG; iostream manipulators and strftime behave as documented; the field-kind table is "
              "frozen in the checker (a new field kind fails the check until the table is extended)",
         technique="static analysis: switch/enum exhaustiveness, who-reads-what table, CFG must-pass-through and guards"),
@@ -284,7 +284,7 @@ CLAIMS = {
              "object must re-target its description printer - this last rule reports an open, recorded finding on "
              "Handler::setUsageParams, see known_findings.json); every call of the visibility predicate passes the current "
              "settings in their places (column-width pass == printing pass); default value, check, constraint and hidden "
-             "mark each depend on their own property only; every display setting is switched by the argument / start flag named after it (UsageParams binders and setters touch the member their reader returns, shortOnly/longOnly values, Handler forwarders call the same-named UsageParams function, the hfUsage*/hfArg* start flags guard exactly their function); the description text goes through the "
+             "mark each depend on their own property only; every display setting is switched by the argument / start flag named after it (UsageParams binders and setters touch the member their reader returns, shortOnly/longOnly values, Handler forwarders call the same-named UsageParams function, the hfUsage*/hfArg* start flags guard exactly their function); isMandatory/isHidden/isDeprecated report one stored flag that every setter of the property sets; the data behind the usage extras (checks, constraints, flags) is modified by the definition-time API only; the description text goes through the "
              "word loop of TextBlock, whose no-word-lost rule (C17-R1) is run here as well. Layout is not decided.",
         note="trusts clang AST/CFG; TypedArgBase property getters report the configured properties",
         also=("engine A (cfg.py)",),
